@@ -125,8 +125,9 @@ func vmHWM() int64 {
 }
 
 type c09 struct {
-	w      *mon.W
-	family string
+	w        *mon.W
+	family   string
+	maxInput int
 }
 
 // call runs one entry point on one input under the monitors.
@@ -160,6 +161,9 @@ func (c *c09) call(entry, inputClass string, input []byte, f func()) {
 			}
 		}
 	}()
+	if len(input) > c.maxInput {
+		c.maxInput = len(input)
+	}
 	pi := mon.Guard(f)
 	close(done)
 	used := cpuNow() - cpu0
@@ -753,6 +757,16 @@ func c09Bulk(w *mon.W, part, parts int) {
 		c.call("literal.Any", "hostile-node", []byte(hv.String()), func() { _, _ = literal.Any(hv.Node()) })
 		if i%50 == 0 && w.WantSample() {
 			w.Sample(map[string]any{"family": "f", "policy": mon.Trunc(pv.String(), 300), "data_values": len(data)})
+		}
+	}
+	// peak memory of the whole bulk shard against the bound of the largest input it offered
+	if hwm := vmHWM(); hwm > 0 {
+		w.Cover("rss-measured")
+		bound := int64(512<<20) + 4096*int64(c.maxInput)
+		w.Note(fmt.Sprintf("rss/bulk-part-%d", part), fmt.Sprintf("largest input %d bytes, peak RSS %d MiB (bound %d MiB)", c.maxInput, hwm>>20, bound>>20))
+		if hwm > bound {
+			w.Violate("memory-bound/bulk", fmt.Sprintf("peak RSS %d MiB of a worker whose largest input was %d bytes exceeds 512 MiB + 4096 x input", hwm>>20, c.maxInput),
+				map[string]any{"largest_input": c.maxInput, "peak_rss": hwm})
 		}
 	}
 }
